@@ -1,6 +1,6 @@
 (* C14 property theorems. Nothing but statements closed by `exact lemma` and Print Assumptions. *)
 From Coq Require Import ZArith List Bool Lia.
-From OG Require Import C14.Model C14.Proofs C14.Inv C14.XModel C14.XProofs C14.XInv C14.XNode C14.XAgree C14.XAgreeIx C14.LK C14.XGuard C14.TTL.
+From OG Require Import C14.Model C14.Proofs C14.Inv C14.XModel C14.XProofs C14.XInv C14.XNode C14.XAgree C14.XAgreeIx C14.LK C14.XGuard C14.TTL C14.Mono.
 Import ListNotations.
 Open Scope Z_scope.
 
@@ -8,6 +8,24 @@ Open Scope Z_scope.
 Theorem C14_expired_iff : forall d e n, expired d e n = true <-> d <> 0 /\ e + d < n.
 Proof. exact expired_spec. Qed.
 Print Assumptions C14_expired_iff.
+
+(* monotonicity of the rule (Mono.v): the clock only turns kept into expired; a later end never expires earlier (groups of a
+   policy leave in the order of their ends); a longer limited duration never expires more; first expired instant = e + d + 1 *)
+Theorem C14_expired_mono_now : forall d e n n', n <= n' -> expired d e n = true -> expired d e n' = true.
+Proof. exact expired_mono_now. Qed.
+Print Assumptions C14_expired_mono_now.
+Theorem C14_expired_anti_end : forall d e e' n, e <= e' -> expired d e' n = true -> expired d e n = true.
+Proof. exact expired_anti_end. Qed.
+Print Assumptions C14_expired_anti_end.
+Theorem C14_expired_anti_dur : forall d d' e n, 0 < d <= d' -> expired d' e n = true -> expired d e n = true.
+Proof. exact expired_anti_dur. Qed.
+Print Assumptions C14_expired_anti_dur.
+Theorem C14_expired_in_end_order : forall d e1 e2 n, e1 <= e2 -> expired d e1 n = false -> expired d e2 n = false.
+Proof. exact expired_in_end_order. Qed.
+Print Assumptions C14_expired_in_end_order.
+Theorem C14_expired_first_instant : forall d e n, d <> 0 -> (expired d e n = true <-> e + d + 1 <= n).
+Proof. exact expired_first_instant. Qed.
+Print Assumptions C14_expired_first_instant.
 
 (* Safety over every trace of ticks / policy alterations / group creations / restarts, from any start world:
    every deletion happened at a tick, concerns a shard of the node at that moment, and is justified by the
